@@ -197,6 +197,14 @@ for _which, _ext in (("local", ".sh"), ("slurm", ".slurm.sh"), ("lsf", "lsf.sh")
     _steps[3]["run"]["cmd"] = "echo $(V)"
 
 
+# labels that differ only in how many blanks they hold, and where: every blank is kept (as `_`), so
+# they stay apart (seeded change C10-n collapsed and trimmed blank runs)
+CORPUS.append(("blank-runs", {"description": {"name": "s", "description": "d"},
+                              "study": [_step("run", "echo $(V)")],
+                              "global.parameters": {"V": {"values": ["case A", "case  A", "case A ", " case A"],
+                                                          "label": "%%"}}},
+               False, False, "local"))
+
 # instance names near the file-name limit that differ in their last character only, scripts in one
 # temporary directory (seeded change C10-m cut the Flux script names to fit `.restart.flux.sh`)
 for _which in ("local", "slurm", "lsf", "flux"):
